@@ -175,13 +175,11 @@ example : (Node.nt seqTok [.nt seqTok [.term [97] (.int 1) 1 2] 1 2 (.select 0),
     1 6 .array).EvalSafe := by
   simp [Node.EvalSafe, EvalSafeList, ObjShape, KvShape]
 
-theorem c04_facts :
-    Facts.parseConds = "node==nil&&err==nil;err==nil;err!=nil;!IsWhitespaceError(err);ctxErr!=nil&&ctxErr.Pos()>err.Pos();ctx.TransformationEnabled();err!=nil;ctx.StaticCheckEnabled();err!=nil" ∧
-    Facts.endConds = "ctx.Reader().IsEOF(pos)" ∧
-    Facts.anyConds = "parsers==nil;err2!=nil&&(err==nil||err2.Pos()>=err.Pos());err2.Pos()>pos||!parsley.IsNotFoundError(err2);res==nil;err==nil" ∧
-    Facts.choiceConds = "parsers==nil;err2!=nil&&(err==nil||err2.Pos()>=err.Pos());err2.Pos()>pos||!parsley.IsNotFoundError(err2);node!=nil;err==nil" ∧
-    Facts.returnErrorConds = "err!=nil;err.Pos()==pos&&parsley.IsNotFoundError(err);res==nil" :=
-  ⟨rfl, rfl, rfl, rfl, rfl⟩
+/- (the text facts that stood here - condition lists and statement orders of Memoize, ResultCache, Any, Choice, the Sequence
+   machinery, ReturnError, SetError, Parse, re-read from the source as normalised text - are subsumed since translator v3: the
+   functions themselves are translated from the source on every run and the model is PROVED to agree with the translation
+   (Props/C01P.lean, built and audited by this property's check).  Unlike a text comparison, that tie is not broken by an
+   equivalent rewrite of the source.) -/
 
 /-
   **C04 (Sentence succeeds IF some derivation consumes the entire input) — NOT proved**:
